@@ -6,7 +6,6 @@ import (
 	"sync/atomic"
 	"time"
 
-	"github.com/rulego/streamsql"
 )
 
 // ProcStep is one step of a processing-time window scenario.
@@ -53,7 +52,7 @@ func RunProc(sc ProcScenario) (evs []Ev, inconclusive string) {
 		}
 		return nil
 	}
-	s := streamsql.New()
+	s := newInstance()
 	sql := fmt.Sprintf("SELECT g, count(*) AS c, sum(v) AS s, collect(id) AS ids, window_start() AS ws, window_end() AS we FROM stream GROUP BY g, TumblingWindow('%dms')", sc.SizeMs)
 	if err := s.Execute(sql); err != nil {
 		return nil, "execute: " + err.Error()
